@@ -71,6 +71,7 @@ func newCounter(cachedCount CachedCount) *counter {
 }
 
 func (c *counter) Inc(v int64) {
+	verifhook.Point(verifhook.CtrBeforeAdd)
 	atomic.AddInt64(&c.curr, v)
 }
 
